@@ -199,6 +199,7 @@ enum Color { RED, GREEN = 5, BLUE };
 class Thing {
  public:
   int v;
+  Thing() : v(0) {}          // (not wrapped; the wrapper of a by-value result default-constructs its heap copy)
   Thing(int vv);
   ~Thing();
   int get() const;
@@ -652,10 +653,15 @@ def specials(rng):
     # generic with both would be ambiguous.
     decls += [{"decl": "void put(int v)", "options": {"wrap_fortran": False}},
               {"decl": "template<typename T> void put(T v)", "cxx_template": [{"instantiation": "<int>"}, {"instantiation": "<double>"}]}]
+    # a vector the library fills, copied into a caller array of ANOTHER extent (a section of a longer array: shorter and longer
+    # than the vector): min(extent, size) elements are copied, nothing outside the argument is touched
+    decls += [{"decl": "void iota_out(int n, std::vector<int> &arg +intent(out))"}]
     decls += [{"decl": "int labelv(std::string name)"}, {"decl": "int labelv(bool flag)"}]          # the same with the string passed by value
     # a const method whose class ALSO has a non-const overload that is not wrapped: the wrapper must call through a pointer to const
-    mdecls = [{"decl": "int addmul(int a, int b = 2)"}, {"decl": "int peekc() const"}]
-    hpp = ["int total_length(const std::vector<std::string> &names);", "int label(const std::string &name);", "int label(bool flag);", "int labelv(std::string name);", "int labelv(bool flag);", "void put(int v);", "void eq_trace_put(double v, int size);",
+    # a class instance returned BY VALUE (method and function): the wrapper keeps a heap copy whose address goes into the capsule
+    mdecls = [{"decl": "int addmul(int a, int b = 2)"}, {"decl": "int peekc() const"}, {"decl": "Thing twin(int d) const"}]
+    decls.append({"decl": "Thing makeThing(int v)"})
+    hpp = ["int total_length(const std::vector<std::string> &names);", "int label(const std::string &name);", "int label(bool flag);", "int labelv(std::string name);", "int labelv(bool flag);", "void iota_out(int n, std::vector<int> &arg);", "void put(int v);", "void eq_trace_put(double v, int size);",
            "template<typename T> void put(T v) { eq_trace_put((double)v, (int)sizeof(T)); }", "const std::string getlbl(int i);", "const std::string getlbl2(int i);", "void vgrow(std::vector<int> &arg, int extra);", "struct Pt { int x; double y; };",
            "int pt_cref(const Pt &p);", "void pt_scale(Pt &p, int k);", "int pt_val(Pt p);", "int pt_ptr(const Pt *p);", "double tagd(const std::string &name, double arg);",
            "int defs(int a, int b = 10, int c = 100);", "double defd(double x, double y = 0.0);",
@@ -663,7 +669,8 @@ def specials(rng):
            "template<typename T> T twice(T v) { eq_trace_twice((double)v); return (T)(v + v); }",
            "int *garr(int n);", "int *gmat(int nr, int nc);", "double *gptr(int n);",
            "long gen2(long a1, long a2);", "double sum_typed(void *addr, int type, size_t size);"]
-    hmeth = ["  int addmul(int a, int b = 2);", "  int peekc() const;", "  int peekc();"]
+    hmeth = ["  int addmul(int a, int b = 2);", "  int peekc() const;", "  int peekc();", "  Thing twin(int d) const;"]
+    hpp.append("Thing makeThing(int v);")
     cpp = ['int defs(int a, int b, int c) { std::cout << "callee defs(" << a << "," << b << "," << c << ")\\n"; return a + b + c; }',
            'double defd(double x, double y) { std::cout << "callee defd("; show(x); show(y); std::cout << ")\\n"; return x * 2.0 + y; }',
            'void eq_trace_twice(double v) { std::cout << "callee twice("; show(v); std::cout << ")\\n"; }',
@@ -688,9 +695,12 @@ def specials(rng):
            'const std::string getlbl2(int i) { std::cout << "callee getlbl2(" << i << ")\\n"; return i == 0 ? std::string() : std::string("tag") + std::to_string(i); }',
            'void put(int v) { std::cout << "callee put ordinary(" << v << ")\\n"; }',
            'void eq_trace_put(double v, int size) { std::cout << "callee put<T> sizeof=" << size << " ("; show(v); std::cout << ")\\n"; }',
+           'void iota_out(int n, std::vector<int> &arg) { std::cout << "callee iota_out(" << n << ")\\n"; arg.clear(); for (int i = 0; i < n; ++i) arg.push_back(101 + i); }',
            'int labelv(std::string name) { std::cout << "callee labelv(string [" << name << "])\\n"; return 200 + (int)name.size(); }',
            'int labelv(bool flag) { std::cout << "callee labelv(bool " << (flag ? 1 : 0) << ")\\n"; return flag ? 3 : 2; }',
            'int label(bool flag) { std::cout << "callee label(bool " << (flag ? 1 : 0) << ")\\n"; return flag ? 1 : 0; }',
+           'Thing Thing::twin(int d) const { std::cout << "callee Thing::twin(" << d << ")\\n"; return Thing(v + d); }',
+           'Thing makeThing(int v) { std::cout << "callee makeThing(" << v << ")\\n"; return Thing(v); }',
            'int Thing::peekc() const { std::cout << "callee Thing::peekc() const\\n"; return v + 7; }',
            'int Thing::peekc() { std::cout << "callee Thing::peekc() NON-const\\n"; v += 100; return v; }',
            'int Thing::addmul(int a, int b) { std::cout << "callee Thing::addmul(" << a << "," << b << ")\\n"; return (v + a) * b; }']
@@ -705,6 +715,9 @@ def specials(rng):
     cdrv += dshow("defd1", "EQ_defd_0(%r)" % v_d, "double") + dshow("defd2", "EQ_defd_1(%r, 0.75)" % v_d, "double")
     direct += dshow("addmul1", "self.addmul(%d)" % m_a) + dshow("addmul2", "self.addmul(%d, %d)" % (m_a, m_b))
     cdrv += dshow("addmul1", "EQ_Thing_addmul_0(&self_cap, %d)" % m_a) + dshow("addmul2", "EQ_Thing_addmul_1(&self_cap, %d, %d)" % (m_a, m_b))
+    direct += ["    { Thing sp_t = self.twin(7); Thing sp_m = makeThing(40); eq_begin(\"byvalue\"); eq_int(sp_t.get()); eq_int(sp_m.get()); eq_end(); }"]
+    cdrv += ["    { EQ_Thing sp_t, sp_m; EQ_Thing_twin(&self_cap, 7, &sp_t); EQ_make_thing(40, &sp_m); eq_begin(\"byvalue\"); eq_int(EQ_Thing_get(&sp_t)); eq_int(EQ_Thing_get(&sp_m));",
+             "      eq_end(); EQ_Thing_delete(&sp_t); EQ_Thing_delete(&sp_m); }"]
     direct += dshow("peekc", "static_cast<const Thing &>(self).peekc()")
     cdrv += dshow("peekc", "EQ_Thing_peekc(&self_cap)")
     # template instantiations
@@ -756,6 +769,13 @@ def specials(rng):
                      "      eq_begin(\"%s_%d\"); eq_str(sp_b, sp_m); eq_end(); }" % (fn, iv)]
     direct += ["    put<int>(8); put<double>(1.5); eq_begin(\"put\"); eq_end();"]
     cdrv += ["    EQ_put_int(8); EQ_put_double(1.5); eq_begin(\"put\"); eq_end();"]
+    for tag, nn, lo, ext in (("iota_short", 5, 2, 3), ("iota_long", 2, 1, 6)):
+        direct += ["    { int sp_buf[10]; for (int i = 0; i < 10; ++i) sp_buf[i] = -1; std::vector<int> sp_v; iota_out(%d, sp_v);" % nn,
+                   "      for (int i = 0; i < %d && i < (int)sp_v.size(); ++i) sp_buf[%d + i] = sp_v[i];" % (ext, lo),
+                   "      eq_begin(\"%s\"); for (int i = 0; i < 10; ++i) eq_int(sp_buf[i]); eq_end(); }" % tag]
+        cdrv += ["    { int sp_buf[10]; for (int i = 0; i < 10; ++i) sp_buf[i] = -1; EQ_SHROUD_array sp_d; EQ_iota_out_bufferify(%d, &sp_d);" % nn,
+                 "      EQ_ShroudCopyArray(&sp_d, sp_buf + %d, %d);" % (lo, ext),
+                 "      eq_begin(\"%s\"); for (int i = 0; i < 10; ++i) eq_int(sp_buf[i]); eq_end(); }" % tag]
     direct += dshow("labelv_pad", "labelv(std::string(%s))" % cstr(tg))
     cdrv += dshow("labelv_pad", "EQ_labelv_0((char *)%s)" % cstr(tg))
     direct += dshow("labelv_s", "labelv(std::string(%s))" % cstr(lab)) + dshow("labelv_b", "labelv(false)")
@@ -775,6 +795,9 @@ def specials(rng):
     fbody += ["    sp_d = defd(%r_C_DOUBLE, 0.75_C_DOUBLE)" % v_d] + fshow("defd2", f_show("double", "sp_d"))
     fbody += ["    sp_i = self%%addmul(%d_C_INT)" % m_a] + fshow("addmul1", f_show("int", "sp_i"))
     fbody += ["    sp_i = self%%addmul(%d_C_INT, %d_C_INT)" % (m_a, m_b)] + fshow("addmul2", f_show("int", "sp_i"))
+    fdecl += ["    type(thing) :: sp_t, sp_m"]
+    fbody += ["    sp_t = self%twin(7_C_INT)", "    sp_m = make_thing(40_C_INT)", "    call eq_begin(\"byvalue\"//C_NULL_CHAR)",
+              "    call eq_int(int(sp_t%get(), C_LONG))", "    call eq_int(int(sp_m%get(), C_LONG))", "    call eq_end()", "    call sp_t%delete()", "    call sp_m%delete()"]
     fbody += ["    sp_i = self%peekc()"] + fshow("peekc", f_show("int", "sp_i"))
     fbody += ["    sp_i = twice_int(%d_C_INT)" % v_i] + fshow("twice_i", f_show("int", "sp_i"))
     fbody += ["    sp_d = twice_double(%r_C_DOUBLE)" % v_d] + fshow("twice_d", f_show("double", "sp_d"))
@@ -816,6 +839,10 @@ def specials(rng):
     for iv in (0, 3):
         fbody += ["    sp_s = '############'", "    call getlbl2(%d_C_INT, sp_s)" % iv] + fshow("getlbl2_%d" % iv, "call eq_str(sp_s, len_trim(sp_s, kind=C_INT))")
     fbody += ["    call put(8_C_INT)", "    call put(1.5_C_DOUBLE)"] + fshow("put", "continue")
+    fdecl += ["    integer(C_INT) :: sp_buf(10)"]
+    for tag, nn, lo, ext in (("iota_short", 5, 2, 3), ("iota_long", 2, 1, 6)):
+        fbody += ["    sp_buf = -1_C_INT", "    call iota_out(%d_C_INT, sp_buf(%d:%d))" % (nn, lo + 1, lo + ext), "    call eq_begin(\"%s\"//C_NULL_CHAR)" % tag,
+                  "    do sp_i = 1, 10", "        call eq_int(int(sp_buf(sp_i), C_LONG))", "    end do", "    call eq_end()"]
     fbody += ["    sp_i = labelv(sp_tg)"] + fshow("labelv_pad", f_show("int", "sp_i"))       # a blank-padded variable: trimmed on the way
     fbody += ["    sp_i = labelv(%s)" % fstr(lab)] + fshow("labelv_s", f_show("int", "sp_i"))
     fbody += ["    sp_i = labelv(.false.)"] + fshow("labelv_b", f_show("int", "sp_i"))
